@@ -11,9 +11,10 @@ NAMES = ["a/f.txt", "a/g.txt", "a/sub/h.rs", "b/x y.txt", "b/ünï.txt", 'c/q"uo
 CFG = {"targets": [{"path": "a"}, {"path": "b", "uses": ["d/deep"]}, {"path": "c", "ignores": ["c/tab\there.txt"]}, {"path": "a/sub"}]}
 
 class Repo:
-    def __init__(self, ctx, object_format=None):
+    def __init__(self, ctx, object_format=None, sub=None):
         self.ctx = ctx
         self.object_format = object_format
+        self.sub = sub
         self.serial = 0
         self.blob_ids = {}        # git blob sha -> small content id
         self.sha256_ids = {}      # sha256 hex -> content id
@@ -22,6 +23,14 @@ class Repo:
         self.repo = vlib.mk_repo(ctx, CFG, extra_files={"a/_keep": "k", "b/_keep": "k", "c/_keep": "k", "a/sub/_keep": "k"}, object_format=object_format)
         with open(os.path.join(self.repo, ".gitignore"), "a") as f: f.write("ign/\n")
         vlib.git(self.repo, "add", "-A"); vlib.git(self.repo, "commit", "-q", "-m", "ignore")
+        if sub:
+            # the configuration lives in a subdirectory of the git repository: the repository root becomes the parent directory, everything
+            # so far moves below <sub>/, and there are files outside it that change as well (they are nobody's business here)
+            outer = tempfile.mkdtemp(prefix="outer-", dir=ctx.scratch)
+            shutil.move(self.repo, os.path.join(outer, sub)); shutil.move(os.path.join(outer, sub, ".git"), os.path.join(outer, ".git"))
+            self.outer = outer; self.repo = os.path.join(outer, sub)
+            os.makedirs(os.path.join(outer, "elsewhere")); open(os.path.join(outer, "elsewhere", "tracked.txt"), "w").write("outside the project\n")
+            vlib.git(self.repo, "add", "-A"); vlib.git(self.repo, "commit", "-q", "-m", "project moved below " + sub)
         self.commits.append(self.rev("HEAD"))
     def rev(self, ref): return vlib.git(self.repo, "rev-parse", ref).decode().strip()
     def fresh_content(self, rng, base=None):
@@ -79,6 +88,10 @@ class Repo:
     def apply(self, rng, op=None):
         r = self.repo
         existing = [n for n in NAMES if os.path.isfile(os.path.join(r, n))]
+        if self.sub and rng.random() < 0.25:
+            # something happens outside the project directory (tracked file edited, untracked file created): never part of the change set
+            with open(os.path.join(self.outer, "elsewhere", "tracked.txt"), "a") as f: f.write("edit %d\n" % self.serial)
+            open(os.path.join(self.outer, "elsewhere", "new%d.txt" % self.serial), "w").write("x"); self.serial += 1
         op = op or rng.choice(["write", "write", "write", "modify", "delete", "mv", "gitmv", "add", "addall", "rmcached", "commit", "commit", "empty", "big", "bigtail", "bigtail",
                                "amend", "reset", "branch"])
         genv = {**os.environ, **vlib.GIT_ENV}
@@ -249,6 +262,29 @@ def failing_update(ctx, repo, rng, trail):
                sample={"ops": trail[-4:], "rc": rc, "show_before": before, "show_after": after} if before is None else None,
                detail={"rc": rc, "show_before": before, "show_after": after, "analyze": an if before is None else None})
 
+def unborn_head_update(ctx, repo, rng, trail):
+    """HEAD names a branch that has no commit yet (a fresh repository, `git checkout --orphan`): an update without --id has no commit to
+    record - it must fail and leave the store as it was (in particular it must not store the word HEAD)."""
+    genv = {**os.environ, **vlib.GIT_ENV}
+    sym = subprocess.run(["git", "symbolic-ref", "-q", "HEAD"], cwd=repo.repo, capture_output=True, env=genv)
+    cur_ref = sym.stdout.decode().strip() if sym.returncode == 0 else None
+    cur_sha = repo.rev("HEAD")
+    repo.serial += 1
+    subprocess.run(["git", "symbolic-ref", "HEAD", "refs/heads/unborn-%d" % repo.serial], cwd=repo.repo, capture_output=True, env=genv)
+    try:
+        before = show_checkpoint(repo)
+        args = ["checkpoint", "update"] + (["--pending"] if rng.random() < 0.5 else [])
+        rc, out, err, raw = vlib.monorail(repo.repo, *args)
+        after = show_checkpoint(repo)
+    finally:
+        if cur_ref: subprocess.run(["git", "symbolic-ref", "HEAD", cur_ref], cwd=repo.repo, capture_output=True, env=genv)
+        else: subprocess.run(["git", "update-ref", "--no-deref", "HEAD", cur_sha], cwd=repo.repo, capture_output=True, env=genv)
+    trail.append(["update_on_unborn_head", args[2:]])
+    ok = rc != 0 and after == before
+    ctx.count("update_on_unborn_head")
+    ctx.record({"trail": list(trail), "what": "checkpoint update without --id while HEAD has no commit"}, True, ok, ok, True,
+               sample={"ops": trail[-3:], "rc": rc, "show_before": before, "show_after": after}, detail={"rc": rc, "out": out, "err": err, "show_before": before, "show_after": after})
+
 STRACE = shutil.which("strace")
 def write_error_update(ctx, repo, rng, trail):
     """The file system refuses the data (no space left: every write(2) to the checkpoint file or its temporary fails with ENOSPC, injected
@@ -285,8 +321,9 @@ def scenario(ctx, sseed, focus, force_huge=False):
     rng = random.Random(sseed)
     # one history in four lives in a SHA-256 repository (object names of 64 hex digits)
     fmt = "sha256" if rng.random() < 0.25 else None
-    repo = Repo(ctx, object_format=fmt)
-    ctx.count("object_format_" + (fmt or "sha1"))
+    sub = "mono" if random.Random(sseed ^ 0x2545f491).random() < 0.25 else None
+    repo = Repo(ctx, object_format=fmt, sub=sub)
+    ctx.count("object_format_" + (fmt or "sha1")); ctx.count("config_in_" + ("subdirectory" if sub else "repository_root"))
     trail = [["scenario_seed", sseed, focus], ["object_format", fmt or "sha1"]]
     n_ops = rng.randint(8, 16)
     side = random.Random(sseed ^ 0x5bd1e995)          # (a stream of its own: stored scenario seeds keep their meaning)
@@ -300,6 +337,7 @@ def scenario(ctx, sseed, focus, force_huge=False):
             trail.append(list(repo.apply(rng, "write"))); 
             if rng.random() < 0.7: trail.append(list(repo.apply(rng, "commit")))
         do_update(ctx, repo, rng, trail, focus, with_id=(rng.choice(repo.commits) if rng.random() < 0.3 else None))
+        if focus == "C19" and side.random() < 0.3: unborn_head_update(ctx, repo, side, trail)
         if side.random() < 0.15:
             # a file named HEAD in the repository root
             open(os.path.join(repo.repo, "HEAD"), "wb").write(b"not the ref\n"); trail.append(["root_file_named", "HEAD"]); ctx.count("root_file_named_HEAD")
@@ -347,8 +385,10 @@ def scenario(ctx, sseed, focus, force_huge=False):
                 if k < 0.45:
                     do_update(ctx, repo, rng, trail, focus, with_id=(rng.choice(repo.commits) if rng.random() < 0.3 else None))
                 elif k < 0.55 and focus == "C19":
-                    if side.random() < 0.5: failing_update(ctx, repo, rng, trail)
-                    else: write_error_update(ctx, repo, side, trail)
+                    w = side.random()
+                    if w < 0.35: failing_update(ctx, repo, rng, trail)
+                    elif w < 0.7: write_error_update(ctx, repo, side, trail)
+                    else: unborn_head_update(ctx, repo, side, trail)
                 elif k < 0.8:
                     had = show_checkpoint(repo) is not None
                     rc, out, err, raw = vlib.monorail(repo.repo, "checkpoint", "delete"); trail.append(["cp_delete"])
@@ -406,7 +446,7 @@ def scenario(ctx, sseed, focus, force_huge=False):
                 opts["alias"] = al; ctx.count("revision_by_alias")
             eval_changes(ctx, repo, opts, focus, list(trail))
     finally:
-        shutil.rmtree(repo.repo, ignore_errors=True)
+        shutil.rmtree(getattr(repo, "outer", repo.repo), ignore_errors=True)
 
 def after_delete(ctx, repo, trail):
     rc, out, err, raw = vlib.monorail(repo.repo, "analyze")
